@@ -15,12 +15,14 @@ package aspect_elimination
 
 //@ func (*AspectEliminationHeuristicParams).with
 //@   property C07 C01 C12 C15 C18 C09 C19 C20
+//@   indexsafe
 //@   nopanic
 //@   ensures [replaced] result.Params == params && result.Weights == *weights && result.Function == a.Function && result.RandomSeed == a.RandomSeed
 //@             && result.RandomAlternativesOrdering == a.RandomAlternativesOrdering
 
 //@ func (*AspectEliminationBiasListener).OnCriteriaRemoved
 //@   property C07 C15 C01 C09 C20
+//@   indexsafe
 //@   refines model.BiasListener.OnCriteriaRemoved with validParams=aeValid, coversId=aeCovers
 //@   ensures [weights_restricted] forall k int :: 0 <= k && k < len(*leftCriteria) ==>
 //@             result.(AspectEliminationHeuristicParams).Weights[(*leftCriteria)[k].Id] == params.(AspectEliminationHeuristicParams).Weights[(*leftCriteria)[k].Id]
@@ -28,16 +30,19 @@ package aspect_elimination
 
 //@ func (*AspectEliminationBiasListener).OnCriterionAdded
 //@   property C07 C18 C01 C09 C19 C20
+//@   indexsafe
 //@   fnparam generator ensures 0.0 <= result && result < 1.0
 //@   refines model.BiasListener.OnCriterionAdded with validParams=aeValid, coversId=aeCovers, accepts=aeAccepts, acceptsAny=aeAcceptsAny
 //@   ensures [weight_is_fraction_of_reference] model.fractionOf(result.(aspectEliminationAddedCriterion).Weights[criterion.Id], params.(AspectEliminationHeuristicParams).Weights[referenceCriterion.Id])
 
 //@ func (*AspectEliminationBiasListener).Merge
 //@   property C07 C18 C01 C09 C19 C20
+//@   indexsafe
 //@   refines model.BiasListener.Merge with validParams=aeValid, coversId=aeCovers, accepts=aeAccepts, acceptsAny=aeAcceptsAny
 
 //@ func (*AspectEliminationBiasListener).RankCriteriaAscending
 //@   property C15 C07 C16 C18 C19 C01 C09 C20
+//@   indexsafe
 //@   refines model.BiasListener.RankCriteriaAscending with validParams=aeValid, coversId=aeCovers, imp=aeImportance
 
 // ---- the heuristic's building blocks (C12)
@@ -47,11 +52,13 @@ package aspect_elimination
 
 //@ func isBellowThreshold
 //@   property C12 C01 C14 C20
+//@   indexsafe
 //@   panics_iff [missing] !(criterion.Id in a.Criteria)
 //@   ensures [below] result <==> model.signed(*a, *criterion) < thresholdOf(*thresholds, criterion.Id) * model.mult(*criterion)
 
 //@ func makeWeightPair
 //@   property C12 C01 C14 C20
+//@   indexsafe
 //@   ensures [single_threshold] fresh(result) && criterion.Id in result && result[criterion.Id] == thresholdOf(*weights, criterion.Id) && forall q string :: q in result ==> q == criterion.Id
 
 //@ pred eliminatedAt(r model.AlternativeResult, alt model.AlternativeWithCriteria, level int, thresholds model.Weights) =
@@ -60,6 +67,7 @@ package aspect_elimination
 
 //@ func updateResult
 //@   property C12 C01 C14 C20
+//@   indexsafe
 //@   requires 0 <= resultInsertIndex && resultInsertIndex < len(result) && resultInsertIndex < len(resultIds) && arr(result) != 0
 //@   assigns result, resultIds
 //@   ensures [slot_written] eliminatedAt(result[resultInsertIndex], alternative, alternativeValue, *thresholds) && resultIds[resultInsertIndex] == alternative.Id
@@ -69,6 +77,7 @@ package aspect_elimination
 
 //@ func fillRemainingAlternatives
 //@   property C12 C01 C14 C20
+//@   indexsafe
 //@   requires len(leftToChoice) <= len(result) && len(leftToChoice) <= len(resultIds) 
 //@   assigns result, resultIds
 //@   ensures [survivors_on_top] forall k int :: 0 <= k && k < len(leftToChoice) ==> result[k].Alternative == leftToChoice[k] && resultIds[k] == leftToChoice[k].Id
@@ -90,6 +99,7 @@ package aspect_elimination
 
 //@ func checkWithinSatisfactionLevels
 //@   property C12 C01 C14 C20
+//@   indexsafe
 //@   requires [distinct_alternatives] distinctIds(*considered)
 //@   returnhint [levels_are_tried_until_one_is_left_or_the_series_ends] len(leftToChoice) <= 1 || !last_HasNext
 //@   ensures [every_alternative_once] fresh(result1) && fresh(result2) && len(result1) == len(*considered) && len(result2) == len(*considered)
@@ -136,6 +146,7 @@ package aspect_elimination
 // criteria from the heaviest weight down (ties in any order: the seeded generator breaks them)
 //@ func sortCriteria
 //@   property C12 C01 C14 C20
+//@   indexsafe
 //@   fnparam generator ensures 0.0 <= result && result < 1.0
 //@   ensures [heaviest_first] forall i int, j int :: 0 <= i && i < j && j < len(result) ==> result[i].Weight >= result[j].Weight
 //@   ensures [the_methods_criteria] len(result) == len(dmp.Criteria) && forall k int :: 0 <= k && k < len(result) ==> exists j int :: 0 <= j && j < len(dmp.Criteria) && result[k].Criterion == dmp.Criteria[j] && result[k].Weight == params.Weights[dmp.Criteria[j].Id]
@@ -143,6 +154,7 @@ package aspect_elimination
 // ---- the method as a whole (C12, C01, C14): what is decoded is what is used, every considered alternative appears once
 //@ func (*AspectEliminationHeuristic).ParseParams
 //@   property C12 C14 C20 C01
+//@   indexsafe
 //@   ensures [decoded_parameters] typeis(result, AspectEliminationHeuristicParams)
 //@             && result.(AspectEliminationHeuristicParams).Function == (decoded_has(dm.MethodParameters, "Function") ? decoded_str(dm.MethodParameters, "Function") : "")
 //@             && result.(AspectEliminationHeuristicParams).RandomSeed == (decoded_has(dm.MethodParameters, "RandomSeed") ? decoded_int(dm.MethodParameters, "RandomSeed") : 0)
@@ -150,6 +162,7 @@ package aspect_elimination
 
 //@ func (*AspectEliminationHeuristic).Evaluate
 //@   property C12 C14 C01 C20
+//@   indexsafe
 //@   fnparam .generator pure
 //@   requires [parameters] typeis(dmp.MethodParameters, AspectEliminationHeuristicParams)
 //@   returnhint [generator_seeded_with_the_requests_seed] generator == appfn(a.generator, params.RandomSeed)
@@ -173,12 +186,14 @@ package aspect_elimination
 // the registered object holds exactly the collaborators it was built with, each in its own role
 //@ func NewAspectEliminationBiasListener
 //@   property C12 C07 C09
+//@   indexsafe
 //@   nopanic
 //@   ensures [wired_as_given] result != nil && fresh(result) && result.satisfactionLevelsUpdateListeners == satisfactionLevelsUpdateListeners
 
 // the registered object holds exactly the collaborators it was built with, each in its own role
 //@ func NewAspectEliminationHeuristic
 //@   property C12 C09 C01
+//@   indexsafe
 //@   nopanic
 //@   ensures [wired_as_given] result != nil && fresh(result) && result.functions == functions && result.generator == generator
 
@@ -200,15 +215,18 @@ package aspect_elimination
 // ---- registered names (what a request must say to select this object; what error messages list)
 //@ func (*AspectEliminationBiasListener).Identifier
 //@   property C07 C20 C01 C03 C04 C05 C06 C08 C09 C11 C12 C13 C14 C15 C16 C17 C18 C19
+//@   indexsafe
 //@   nopanic
 //@   ensures [name] result == "aspectEliminationHeuristic"
 
 // ---- registered names (what a request must say to select this object; what error messages list)
 //@ func (*AspectEliminationHeuristic).Identifier
 //@   property C01 C12 C20 C03 C04 C05 C06 C07 C08 C09 C11 C13 C14 C15 C16 C17 C18 C19
+//@   indexsafe
 //@   nopanic
 //@   ensures [name] result == "aspectEliminationHeuristic"
 
 //@ func (*AspectEliminationBiasListener).getMethodParams
 //@   property C07 C12 C15 C18 C01 C09 C19 C20
+//@   indexsafe
 //@   ensures [listener_of_the_requests_level_source] pParams.Function in a.satisfactionLevelsUpdateListeners.Listeners && result0 == a.satisfactionLevelsUpdateListeners.Listeners[pParams.Function]
